@@ -249,6 +249,22 @@ def r02_1(chk, sg, emit=True):
         ret = [e for e in ev.returns if "SpaceGroup(" in e.value.key() or "cls(" in e.value.key()]
         others = [e for e in ev.returns if e.value is not None and e not in ret]       # every exit with a value is such a hit
         okret = bool(ret) and not others and all(".number" in e.value.key() and "choice=" in e.value.key() for e in ret)
+
+        def _stored_fields(e):
+            # SpaceGroup(ROW.number, choice=ROW.choice) with ROW the table entry found: both fields as stored, on every path (no value
+            # substituted for some groups -- seed C02-26 passed choice="" outside the two-origin-choice groups)
+            a = e.value.as_atom()
+            if not a or a[0] != "call":
+                return False
+            kw = dict(a[3]) if len(a) > 3 and a[3] else {}
+            num = a[2][0] if a[2] else kw.get("international_tables_number") or kw.get("number")
+            ch = a[2][1] if len(a[2]) > 1 else kw.get("choice")
+            if num is None or ch is None:
+                return False
+            na, ca = num.as_atom(), ch.as_atom()
+            return bool(na and ca and na[0] == "attr" and ca[0] == "attr" and na[2] == "number" and ca[2] == "choice"
+                        and na[1].key() == ca[1].key() and "SG_FROM_SYMOPS" in na[1].key())
+        okret = okret and all(_stored_fields(e) for e in ret)
         chk.ob("R02.1", SG, "SpaceGroup.from_symmetry_operations", "a hit returns the setting with the stored number and choice; a miss raises",
                used and okret and any(e.kind == "raise" for e in ev.events), found=str((others or ret)[0].value) if ret else None)
         # every LATT number -7 .. 7 is accepted for the expansion (the codes of LATTICE_TYPE_TRANSLATIONS, either sign); only others are refused
